@@ -24,6 +24,8 @@ PublicViewsClean == \A c \in CallsOf(s) : LET r == Act(Deviations, s, c) IN r.vi
 PrivateViewsListed == \A c \in CallsOf(s) : Act(Deviations, s, c).view = "private" => (s.private /\ c \in PrivateCalls)
 \* nothing private comes out of a public key object, whatever is called on it
 PublicAbsorbing == [][(~s.private /\ s.kind \in KeyKinds) => ~s'.private]_vars
+\* a call documented to return a public object never yields a private one
+PublicRequestedIsPublic == [][\A c \in PublicObjectCalls \cap CallsOf(s) : ~Act(Deviations, s, c).st.private]_vars
 TypeOK == s.kind \in Kinds /\ Held(s) \subseteq Enc /\ s.private \in BOOLEAN
 \* ---- what the named deviations can leak -----------------------------------------------------------------------------
 WifNeedsCachingCall == (~s.private /\ "wif" \in Held(s)) => Used({"wif", "as_dict_priv", "info"})
